@@ -1,4 +1,4 @@
-From V Require Import Lib.Sexp Model.Verify Wire.Abi.
+From V Require Import Lib.Sexp Model.Verify Model.RootOfTrust Wire.Abi.
 
 Definition time_offset : Z := 137438953472%Z.   (* 2^37 *)
 Definition sZ (s : sexp) : Z := (Z.of_N (sN s) - time_offset)%Z.
@@ -117,6 +117,19 @@ Definition verdict_code {T} (r : res T) : N :=
 
 Definition enc_fetching (f : fetching unit) : sexp := L [A (verdict_code (fst f)); L (map B (snd f))].
 
+Fixpoint insert_sorted (x : N) (l : list N) : list N :=
+  match l with
+  | [] => [x]
+  | y :: r => if N.eqb x y then l else if N.ltb x y then x :: l else y :: insert_sorted x r
+  end.
+Definition sort_ids (l : list N) : list N := fold_right insert_sorted [] l.
+
+Definition dec_source (s : sexp) : source :=
+  {| srcReadable := sbool (snth 0 s); srcCerts := map dec_cert (sL (snth 1 s)) |}.
+Definition dec_rot (s : sexp) : root_of_trust :=
+  {| rotPaths := map dec_source (sL (snth 0 s)); rotInline := map dec_source (sL (snth 1 s));
+     rotCheckCrl := sbool (snth 2 s); rotGetCollateral := sbool (snth 3 s) |}.
+
 (* (op world arg options wall):
    0 verify (opt quote) | 1 verify_raw bytes
    2 supported levels: arg = (tcbinfo qeidentity (tee...) pckext isvsvn) *)
@@ -132,6 +145,16 @@ Definition run_verify (s : sexp) : sexp :=
     match supported_levels (dec_tcbinfo (snth 0 arg)) (dec_qeidentity (snth 1 arg))
                            (map sN (sL (snth 2 arg))) (dec_pckext (snth 3 arg)) (sN (snth 4 arg)) with
     | Ok (a, b) => L [A 0; enc_level a; enc_level b]
+    | Err _ => L [A 1]
+    | Panic => L [A 2]
+    end
+  | 3%N =>
+    match root_of_trust_to_options (dec_rot arg) with
+    | Ok o => L [A 0; of_bool (optCheckRevocations o); of_bool (optGetCollateral o);
+                 match optRoots o with
+                 | None => L []
+                 | Some p => L [L (map A (sort_ids (map cId p)))]
+                 end]
     | Err _ => L [A 1]
     | Panic => L [A 2]
     end
